@@ -129,6 +129,9 @@ Section Model.
     o_sl : option jdv           (* _jd1_sliced/_jd2_sliced *)
   }.
 
+  (* len(o): number of epochs *)
+  Definition olen (o : obj) : nat := if o_scalar o then 1%nat else length (o_vals o).
+
   Definition set_sl (o : obj) (s : option jdv) : obj :=
     mkObj (o_scalar o) (o_vals o) (o_jd o) (o_fmt o) (o_scale o) s.
 
@@ -480,7 +483,7 @@ Definition jo_of (f : tJ -> Z) (x : jdv tJ) : jo :=
 
 Definition obs_of (t : tables) (o : obj tV tJ) (dsc : bool) : oobs :=
   mkO (o_scalar _ _ o) (o_vals _ _ o) (jo_of fst (o_jd _ _ o)) (jo_of snd (o_jd _ _ o))
-      (if o_scalar _ _ o then 1 else Z.of_nat (length (o_vals _ _ o)))
+      (Z.of_nat (olen _ _ o))
       (let d := map (T_dv t (o_scale _ _ o)) (flat _ (o_jd _ _ o)) in
        if dsc then match d with [x] => S1 x | _ => A1 d end else A1 d)
       (o_fmt _ _ o) (o_scale _ _ o).
